@@ -263,3 +263,27 @@ Example doc_roundtrip_hyp :
   doc_export conv_simple (mkCfg true true false false false) ZIPP (gen_raster MCMYK 3 2 1 7 0)
   = Ok (gen_raster MCMYK 3 2 1 7 0).
 Proof. vm_compute. reflexivity. Qed.
+
+(* ---------------------------------------------------------------- every channel selector *)
+(* 10. single channels: topil(k) is plane k of numpy(), numpy("shape") is the plane that
+   topil(TRANSPARENCY_MASK) returns, and a layer's numpy() is numpy("color") followed by numpy("shape") *)
+Theorem doc_channel_agree : forall hd st k p ps, h_cm hd <> CRgb -> 0 <= k ->
+  doc_topil_chan hd st k = Ok (Some p) -> doc_numpy_sel hd st true 0 = Ok ps ->
+  nth_error ps (Z.to_nat k) = Some p.
+Proof. exact Proofs.doc_channel_agree. Qed.
+Print Assumptions doc_channel_agree.
+
+Theorem doc_shape_agree : forall hd st a b,
+  h_cm hd <> CRgb -> h_cm hd <> CBitmap -> h_channels hd = cm_channels (h_cm hd) + 1 -> header_ok hd ->
+  doc_numpy_sel hd st true 2 = Ok [a] -> doc_topil_transparency hd st = Ok (Some b) -> a = b.
+Proof. exact Proofs.doc_shape_agree. Qed.
+Print Assumptions doc_shape_agree.
+Example doc_shape_agree_hyp :
+  let hd := mkH CGray 2 2 1 8 in let st := mkI ZIP [1;2;9;8] in
+  header_ok hd /\ doc_numpy_sel hd st true 2 = Ok [[9;8]] /\ doc_topil_transparency hd st = Ok (Some [9;8]).
+Proof. cbv zeta. split; [unfold header_ok, depth_ok; cbn; lia|]. split; vm_compute; reflexivity. Qed.
+
+Theorem layer_numpy_is_color_then_shape : forall cm l,
+  layer_numpy cm l = layer_numpy_color cm l ++ layer_numpy_shape l.
+Proof. exact Proofs.layer_numpy_split. Qed.
+Print Assumptions layer_numpy_is_color_then_shape.
